@@ -135,8 +135,7 @@ Proof.
   - destruct (assign_move st None (key + S m) (key + m)) as [[st1 p1] o1] eqn:E.
     destruct (assign_move_None_plan _ _ _ _ _ _ E) as (-> & NF).
     destruct o1; try (inversion H; subst; split; auto; discriminate).
-    + eapply IH; eauto.
-    + exfalso; apply NF; reflexivity.
+    eapply IH; eauto.
 Qed.
 
 Lemma shift_down_None : forall n key st st' p' o, shift_down n key None st = (st', p', o) -> p' = None /\ o <> Faulted.
@@ -146,8 +145,7 @@ Proof.
   - destruct (assign_move st None key (S key)) as [[st1 p1] o1] eqn:E.
     destruct (assign_move_None_plan _ _ _ _ _ _ E) as (-> & NF).
     destruct o1; try (inversion H; subst; split; auto; discriminate).
-    + eapply IH; eauto.
-    + exfalso; apply NF; reflexivity.
+    eapply IH; eauto.
 Qed.
 
 Lemma emplace_None key v st st' o : emplace None key v st = (st', o) -> o <> Faulted.
